@@ -4,6 +4,8 @@ pub mod runner;
 pub mod rt;
 pub mod findings;
 pub mod disk;
+pub mod store;
+pub mod clock;
 
 pub use runner::{Property, RunCtx, RunReport, Violation, Tier};
 pub use tape::{Src, mix, fnv};
